@@ -26,7 +26,8 @@ Record rstate := {
   clock : Z ;
   tlog : list (tick * Z) ;     (* ghost: every processed tick with the clock reading passed to the reducer *)
   idlelog : list (bool * nat) ; (* ghost: at each WorkflowIdleEvent publication: (a delayed retry is scheduled, #ticks delivered to the mailbox and not yet pulled) *)
-  envlog : list tick            (* ghost: every tick the environment put into the mailbox (worker send_event calls, external deliveries) *)
+  envlog : list tick ;          (* ghost: every tick the environment put into the mailbox (worker send_event calls, external deliveries) *)
+  firelog : list (Z * tick * Z) (* ghost: every wake-up that fired: (the time it was scheduled for, its tick, the clock reading when it was moved to the tick buffer) *)
 }.
 
 Fixpoint insert_wakeup (w : Z * Z * tick) (l : list (Z * Z * tick)) :=
@@ -40,7 +41,7 @@ Fixpoint insert_wakeup (w : Z * Z * tick) (l : list (Z * Z * tick)) :=
 Definition upd (r : rstate) st' tbuf' wk' wseq' ip' pend' pubs' out' : rstate :=
   {| st := st' ; tbuf := tbuf' ; wakeups := wk' ; wseq := wseq' ; idle_pending := ip' ;
      mailbox := mailbox r ; pending := pend' ; runningw := runningw r ; donew := donew r ;
-     published := pubs' ; ticklog := ticklog r ; outcome := out' ; clock := clock r ; tlog := tlog r ; idlelog := idlelog r ; envlog := envlog r |}.
+     published := pubs' ; ticklog := ticklog r ; outcome := out' ; clock := clock r ; tlog := tlog r ; idlelog := idlelog r ; envlog := envlog r ; firelog := firelog r |}.
 
 (* process_command *)
 Definition do_command (r : rstate) (c : command) : rstate :=
@@ -74,7 +75,7 @@ Definition log_tick (r : rstate) (t : tick) : rstate :=
   {| st := st r ; tbuf := tbuf r ; wakeups := wakeups r ; wseq := wseq r ; idle_pending := idle_pending r ;
      mailbox := mailbox r ; pending := pending r ; runningw := runningw r ; donew := donew r ;
      published := published r ; ticklog := ticklog r ++ [t] ; outcome := outcome r ; clock := clock r ;
-     tlog := tlog r ++ [(t, clock r)] ; idlelog := idlelog r ; envlog := envlog r |}.
+     tlog := tlog r ++ [(t, clock r)] ; idlelog := idlelog r ; envlog := envlog r ; firelog := firelog r |}.
 
 Definition publishes_idle (cs : list command) : bool :=
   existsb (fun c => match c with CPublish PIdle => true | _ => false end) cs.
@@ -87,7 +88,7 @@ Definition log_idle (r : rstate) (cs : list command) : rstate :=
        mailbox := mailbox r ; pending := pending r ; runningw := runningw r ; donew := donew r ;
        published := published r ; ticklog := ticklog r ; outcome := outcome r ; clock := clock r ;
        tlog := tlog r ;
-       idlelog := idlelog r ++ [(has_retry_wakeup (wakeups r), length (mailbox r))] ; envlog := envlog r |}
+       idlelog := idlelog r ++ [(has_retry_wakeup (wakeups r), length (mailbox r))] ; envlog := envlog r ; firelog := firelog r |}
   else r.
 
 (* drain the tick buffer (fuel bounds the number of ticks processed) *)
@@ -119,7 +120,14 @@ Fixpoint drain_ticks (P : policy) (r : rstate) (fuel : nat) : rstate :=
 Definition set_wait (r : rstate) tbuf' wk' mb' run' done' : rstate :=
   {| st := st r ; tbuf := tbuf' ; wakeups := wk' ; wseq := wseq r ; idle_pending := idle_pending r ;
      mailbox := mb' ; pending := [] ; runningw := run' ; donew := done' ;
-     published := published r ; ticklog := ticklog r ; outcome := outcome r ; clock := clock r ; tlog := tlog r ; idlelog := idlelog r ; envlog := envlog r |}.
+     published := published r ; ticklog := ticklog r ; outcome := outcome r ; clock := clock r ; tlog := tlog r ; idlelog := idlelog r ; envlog := envlog r ; firelog := firelog r |}.
+
+Definition log_fire (r : rstate) (fired : list (Z * Z * tick)) : rstate :=
+  {| st := st r ; tbuf := tbuf r ; wakeups := wakeups r ; wseq := wseq r ; idle_pending := idle_pending r ;
+     mailbox := mailbox r ; pending := pending r ; runningw := runningw r ; donew := donew r ;
+     published := published r ; ticklog := ticklog r ; outcome := outcome r ; clock := clock r ; tlog := tlog r ;
+     idlelog := idlelog r ; envlog := envlog r ;
+     firelog := firelog r ++ map (fun w : Z * Z * tick => (fst (fst w), snd w, clock r)) fired |}.
 
 Fixpoint due (now : Z) (l : list (Z * Z * tick)) : list tick * list (Z * Z * tick) :=
   match l with
@@ -151,7 +159,7 @@ Definition wait_step (r : rstate) (choice : nat) : option rstate :=
         match d with
         | [] => if match pending r with [] => true | _ => false end then None
                 else Some (set_wait r (tbuf r) (wakeups r) [] run' [])  (* only started workers *)
-        | _ => Some (set_wait r (tbuf r ++ d) rest [] run' [])
+        | _ => Some (log_fire (set_wait r (tbuf r ++ d) rest [] run' []) (firstn (length d) (wakeups r)))
         end
       end
     end
@@ -197,17 +205,17 @@ Definition act (P : policy) (r : rstate) (a : action) : rstate :=
           {| st := st r ; tbuf := tbuf r ; wakeups := wakeups r ; wseq := wseq r ; idle_pending := idle_pending r ;
              mailbox := mailbox r ++ sends ; pending := pending r ; runningw := run' ;
              donew := donew r ++ [(s, w, e, rs)] ; published := published r ; ticklog := ticklog r ;
-             outcome := outcome r ; clock := clock r ; tlog := tlog r ; idlelog := idlelog r ; envlog := envlog r ++ sends |}
+             outcome := outcome r ; clock := clock r ; tlog := tlog r ; idlelog := idlelog r ; envlog := envlog r ++ sends ; firelog := firelog r |}
         | None => r
         end
       | ADeliver t =>
           {| st := st r ; tbuf := tbuf r ; wakeups := wakeups r ; wseq := wseq r ; idle_pending := idle_pending r ;
              mailbox := mailbox r ++ [t] ; pending := pending r ; runningw := runningw r ; donew := donew r ;
-             published := published r ; ticklog := ticklog r ; outcome := outcome r ; clock := clock r ; tlog := tlog r ; idlelog := idlelog r ; envlog := envlog r ++ [t] |}
+             published := published r ; ticklog := ticklog r ; outcome := outcome r ; clock := clock r ; tlog := tlog r ; idlelog := idlelog r ; envlog := envlog r ++ [t] ; firelog := firelog r |}
       | AAdvance dt =>
           {| st := st r ; tbuf := tbuf r ; wakeups := wakeups r ; wseq := wseq r ; idle_pending := idle_pending r ;
              mailbox := mailbox r ; pending := pending r ; runningw := runningw r ; donew := donew r ;
-             published := published r ; ticklog := ticklog r ; outcome := outcome r ; clock := clock r + dt ; tlog := tlog r ; idlelog := idlelog r ; envlog := envlog r |}
+             published := published r ; ticklog := ticklog r ; outcome := outcome r ; clock := clock r + dt ; tlog := tlog r ; idlelog := idlelog r ; envlog := envlog r ; firelog := firelog r |}
       end in
     run_until_blocked P r' loop_fuel
   | _ => r
@@ -216,7 +224,7 @@ Definition act (P : policy) (r : rstate) (a : action) : rstate :=
 Definition start (s : state) (e : event) (now : Z) : rstate :=
   {| st := s ; tbuf := [TAdd (blank e) None] ; wakeups := [] ; wseq := 0 ; idle_pending := false ;
      mailbox := [] ; pending := [] ; runningw := [] ; donew := [] ; published := [] ; ticklog := [] ;
-     outcome := ORunning ; clock := now ; tlog := [] ; idlelog := [] ; envlog := [] |}.
+     outcome := ORunning ; clock := now ; tlog := [] ; idlelog := [] ; envlog := [] ; firelog := [] |}.
 Definition run_at (P : policy) (s : state) (e : event) (now : Z) (acts : list action) : rstate :=
   fold_left (act P) acts (run_until_blocked P (start s e now) loop_fuel).
 Definition run (P : policy) (s : state) (e : event) (acts : list action) : rstate := run_at P s e 100 acts.
